@@ -65,7 +65,7 @@ def concurrent_writers(ctx):
 
 def check(ctx):
     # body of RrdpServer::find_deltas_truncate_age regenerated from the source; C11Src: generated definition = model function
-    vlib.translate(ctx, [("pure_fns:C11", "PureFns.lean")])
+    vlib.translate(ctx, [("pure_fns:C11", "PureFnsC11.lean")])
     vlib.prove(ctx, ["KrillModel.Props.C11", "KrillModel.Props.C11Src"])
     found = False
     if vlib.build_harness(ctx, ["pubd", "conc"]):
